@@ -239,9 +239,10 @@ def run(tier, only=None):
 
     for comp, rot, ground in ((False, False, False), (True, False, False), (False, True, False), (True, True, False), (False, False, True), (False, True, True)):
         surfs = [dict(name="wing", nx=2, ny=3, sym=True, side="L", shape="swept", visc=True, wave=True, ground=ground), dict(name="tail", nx=2, ny=3, sym=True, side="R" if not ground else "L", shape="flat", span=4.0, chord=0.8, off=(6.0, 0.0, 0.5), visc=True, ground=ground)]
-        m = B.AeroModel(surfs, compressible=comp, rotational=rot, rng=np.random.default_rng(2))
-        m.prob.final_setup()
-        wiring.check(R, m.prob, "aero", "aero:compressible=%s:rotational=%s:ground=%s" % (comp, rot, ground))
+        for usr in (None, 25.0):
+            m = B.AeroModel(surfs, compressible=comp, rotational=rot, user_sref=usr, rng=np.random.default_rng(2))
+            m.prob.final_setup()
+            wiring.check(R, m.prob, "aero", "aero:compressible=%s:rotational=%s:ground=%s:user_specified_Sref=%s" % (comp, rot, ground, usr is not None))
     R.assume("CM is normalised by the first listed surface's MAC (documented): the Permute law rescales CM by the MAC ratio; M is compared unscaled", "far-away surface: influence decays >= 5x per decade of distance, < 1e-8 at 1e6 chords", "MPhys groups wired by hand as AeroCouplingGroup/AeroBuilder do, without the MPI distributor")
     return R.finish({"exhaustive": True, "depth": depth})
 
